@@ -343,7 +343,8 @@ template <bool U, bool E> static std::string riiseq_once(uint64_t seed, const st
         else if (op == "C") { RII* n = new RII(*it); it.reset(n); }
         else if (op[0] == 'A') {
             std::string s2 = op.substr(1);
-            RII* n = (s2 == "-") ? new RII(Z, seed + 1) : new RII(Z, seed + 1, Integer(s2.c_str()));
+            uint64_t sd2 = (seed + 1) ? seed + 1 : 1;       // never 0: a zero seed means the timer
+            RII* n = (s2 == "-") ? new RII(Z, sd2) : new RII(Z, sd2, Integer(s2.c_str()));
             *n = *it; it.reset(n);
         }
         else return "UNKNOWN-OP";
@@ -383,7 +384,7 @@ template <class Ring> struct RingSeq {
             else if (op == 'n') { GeneralRingNonZeroRandIter<Ring, RI> nz(*it); nz.random(r); }
             else if (op == 'm') { GeneralRingNonZeroRandIter<Ring, RI> nz(*it); GeneralRingNonZeroRandIter<Ring, RI> nz2(nz); nz2(r); }
             else if (op == 'C') { RI* n = new RI(*it); it.reset(n); continue; }
-            else if (op == 'A') { RI* n = new RI(F, seed + 17, size); E t; F.init(t); n->random(t); if (!Assign<RI>::go(*n, *it)) { delete n; return "UNSUPPORTED"; } it.reset(n); continue; }
+            else if (op == 'A') { RI* n = new RI(F, (seed + 17) ? seed + 17 : 17, size); E t; F.init(t); n->random(t); if (!Assign<RI>::go(*n, *it)) { delete n; return "UNSUPPORTED"; } it.reset(n); continue; }
             else return "UNKNOWN-OP";
             o << rawshow<E>(r) << ":" << Val<Ring>::show(F, r) << (F.isZero(r) ? "z" : "") << " ";
         }
@@ -424,7 +425,10 @@ static std::string qf_f(void* c) { QfCtx* x = (QfCtx*) c; return qf_once(x->form
 //   prints per element  "[c0 c1 ...]" (exponents of the base field) and "| state" for the GivRandom forms
 static std::string ext_once(uint64_t p, uint64_t e, const std::string& op, uint64_t seed, int n, int64_t s) {
     typedef Extension<GFqDom<int64_t> > Ext;
-    Ext F((Ext::Residu_t) p, (Ext::Residu_t) e);
+    static std::map<std::pair<uint64_t, uint64_t>, std::unique_ptr<Ext> > cache;      // building the extension searches an irreducible polynomial
+    std::unique_ptr<Ext>& slot = cache[std::make_pair(p, e)];
+    if (!slot) slot.reset(new Ext((Ext::Residu_t) p, (Ext::Residu_t) e));
+    const Ext& F = *slot;
     std::ostringstream o;
     o << F.order() << " " << F.characteristic();
     GivRandom g(seed);
@@ -794,7 +798,7 @@ int main(int argc, char** argv) {
         if (!is) continue;
         Args a; while (is >> t) a.push_back(t);
         if (sigsetjmp(jb, 1)) { std::cout << "TIMEOUT" << std::endl; continue; }
-        arm(kind == "lcg" ? limit_ms + 5000 : limit_ms);     // GivRandom draws have no loop; long sequences need time to print
+        arm((kind == "lcg" || kind == "ext" || kind == "gfqx") ? limit_ms + 5000 : limit_ms);     // GivRandom draws have no loop; long sequences need time to print
         std::string out = dispatch(kind, a);
         arm(0);
         std::cout << out << "\n";
